@@ -63,6 +63,11 @@ pub trait World {
     fn check(&self, case: &Value, stats: &mut Stats, toggles: &[String]) -> (CaseInfo, Result<(), Violation>);
     /// Minimise a failing case, keeping the violation class.
     fn minimise(&self, case: &Value, class: &str, budget: usize, toggles: &[String]) -> Value;
+    /// Simpler variants of a case, most aggressive first (used by the supervisor to minimise cases
+    /// that kill the worker process, where the predicate has to run in a subprocess).
+    fn shrink_candidates(&self, _case: &Value) -> Vec<Value> {
+        vec![]
+    }
     /// Rule text for the evidence file.
     fn rule(&self) -> String;
     fn components(&self) -> Value;
